@@ -77,7 +77,7 @@ def run_controls(pid, mod, rep, qstage):
             patch = os.path.join(root, name, 'patch.diff')
             if os.path.exists(patch):
                 jobs.append((kind, want, name, patch))
-    with ThreadPoolExecutor(int(os.environ.get('QV_CONTROL_JOBS', '4'))) as ex:
+    with ThreadPoolExecutor(int(os.environ.get('QV_CONTROL_JOBS', '8'))) as ex:
         for kind, row, bad in ex.map(lambda j: _one(pid, j[0], j[1], j[2], j[3], qstage), jobs):
             res[kind].append(row)
             if bad:
